@@ -69,10 +69,21 @@ pub struct ReaderProp {
 
 const CHUNKS: [usize; 16] = [1, 2, 3, 4, 7, 8, 9, 15, 16, 17, 33, 64, 300, 4096, 16384, 65536];
 
+/// Rare: chunk sizes far beyond the shipped 16 KiB (each refill then offers the source that much).
+const BIG_CHUNKS: [usize; 6] = [131_072, 262_144, 262_145, 327_680, 1 << 20, 4 << 20];
+
+fn pick_chunk(rng: &mut Rng) -> usize {
+    if !cfg!(miri) && rng.chance(1, 40) {
+        *rng.pick(&BIG_CHUNKS)
+    } else {
+        *rng.pick(&CHUNKS)
+    }
+}
+
 fn gen_ops(rng: &mut Rng, data_len: usize, crash: bool) -> Vec<ROp> {
     let mut ops = vec![];
     if rng.chance(5, 6) {
-        ops.push(ROp::SetChunk(*rng.pick(&CHUNKS)));
+        ops.push(ROp::SetChunk(pick_chunk(rng)));
     }
     // under Miri every step costs ~50 ms: shorter histories, more of them
     let nops = if cfg!(miri) {
@@ -120,7 +131,7 @@ fn gen_ops(rng: &mut Rng, data_len: usize, crash: bool) -> Vec<ROp> {
             } else {
                 rng.below(data_len + 9)
             }),
-            10 => ROp::SetChunk(*rng.pick(&CHUNKS)),
+            10 => ROp::SetChunk(pick_chunk(rng)),
             11 => ROp::CheckIoError,
             12 => ROp::AdvancePast(rng.small(200)),
             _ => ROp::AdvanceWithBufPast(rng.small(200)),
